@@ -48,6 +48,11 @@ func (m msgServer) CreateHTLC(
 		return nil, errorsmod.Wrapf(sdkerrors.ErrUnauthorized, "%s is a module account", msg.To)
 	}
 
+	// funds claimed to the HTLC escrow account itself would stay locked there forever
+	if to.Equals(m.k.accountKeeper.GetModuleAddress(types.ModuleName)) {
+		return nil, errorsmod.Wrapf(sdkerrors.ErrUnauthorized, "%s is the HTLC module account", msg.To)
+	}
+
 	ctx := sdk.UnwrapSDKContext(goCtx)
 	id, err := m.k.CreateHTLC(
 		ctx,
